@@ -46,6 +46,18 @@ def decStep (j : Json) : R (Step String) :=
   | .arr #[.str "load", ty, sh, st] => do pure (.load (← asStr ty) (← decShape sh) (← decStore st))
   | _ => .error s!"step: {j.compress}"
 
+def isLoad : Step String → Bool
+  | .load .. => true
+  | _ => false
+
+/-- states after every load step, under the shared-cache variant (seeded defect C18-2) -/
+def traceShared : Shared String → List (Step String) → List (Option (Running String))
+  | _, [] => []
+  | w, s :: ss =>
+    match runStepShared w s with
+    | .error _ => [none]
+    | .ok w' => (if isLoad s then [some w'.run] else []) ++ traceShared w' ss
+
 def handlePipeline (j : Json) : R Json := do
   let ty ← asStr (← fld j "ty")
   let keys := (tablesOf ty).containers
@@ -55,7 +67,16 @@ def handlePipeline (j : Json) : R Json := do
     match r with
     | .ok r => obj [("ok", encStore keys r.store)]
     | .error e => obj [("err", Json.str e)]
-  .ok (obj [("model", enc (runSteps runStep r0 steps)), ("noop", enc (runSteps runStepNoop r0 steps))])
+  -- what the model placed right after each execution of the load model sees
+  let loads : Json :=
+    match runTrace runStep r0 steps with
+    | .error e => obj [("err", Json.str e)]
+    | .ok tr => obj [("ok", Json.arr (((steps.zip tr).filter (fun p => isLoad p.1)).map
+        (fun p => encStore keys p.2.store)).toArray)]
+  let shared : Json := Json.arr ((traceShared ⟨r0, none, false⟩ steps).map
+    (fun o => match o with | some r => encStore keys r.store | none => Json.null)).toArray
+  .ok (obj [("model", enc (runSteps runStep r0 steps)), ("noop", enc (runSteps runStepNoop r0 steps)),
+            ("loads", loads), ("shared_loads", shared)])
 
 def handle (j : Json) : R Json := do
   match (← asStr (← fld j "op")) with
